@@ -32,8 +32,11 @@ theorem call_case {p : Nat} {nm : Expr} {args : List Expr}
               obtain ⟨e1, R⟩ := ihb b chunk c hc _ _ h
               exact ⟨e1, R.imp (fun y kv ⟨y', hy, ry⟩ => ⟨y', by rw [hrow]; exact hy, ry⟩)⟩
             · rw [if_neg ht] at h
-              obtain ⟨e1, R⟩ := forPairs_forall₂ (fun kv => rowBody_inert b args kv) hc h
-              exact ⟨e1, R.imp (fun v kv hv => ⟨v, by rw [hrow]; exact hv, .refl v⟩)⟩
+              unfold rowWiseNoCtx at h
+              rcases hfp : forPairs (rowBody b args) chunk Ctx.none with ⟨r, d⟩
+              rw [hfp] at h; simp at h; obtain ⟨rfl, rfl⟩ := h
+              obtain ⟨_, R⟩ := forPairs_forall₂ (fun kv => rowBody_inert b args kv) (c := Ctx.none) rfl hfp
+              exact ⟨rfl, R.imp (fun v kv hv => ⟨v, by rw [hrow]; exact (rowBody_off b args kv).run_eq rfl hc hv, .refl v⟩)⟩
 
 mutual
   /-- batch = map of row (by content), and batch ok ⇒ row ok, for every covered expression -/
